@@ -10,6 +10,8 @@ for d in sorted(os.listdir('/verif/seeded')):
     caught = [r["check"] for r in m["checks_run_against_it"] if r["exit"] == 1]
     notcaught = [r["check"] for r in m["checks_run_against_it"] if r["exit"] != 1]
     note = "missed at first: " + m["missed_at_first"] if "missed_at_first" in m else "caught at first run"
+    if "not_detected_by_own_property" in m:
+        note = "not by the check of its own property: " + m["not_detected_by_own_property"]
     if notcaught:
         note += "; also tried without detection (not the seed's own property): " + ", ".join(notcaught)
     if "ported" in m:
